@@ -27,9 +27,12 @@ def _perup_writer(fn, attr):
     """('ok'|'bad'|'unknown', why): self.<attr> rebuilt with exactly one entry per pattern of self.usage_patterns"""
     # (the dict may be filled through a local that names it: `d = self.<attr>` … `d[up] = …`)
     from ..astutil import expanded as _exp_pw
-    stores = [n for n in ast.walk(fn) if isinstance(n, ast.Assign) and isinstance(n.targets[0], ast.Subscript)
-              and norm(_exp_pw(n.targets[0].value, fn)) == f"self.{attr}"]
     inits = [n for n in ast.walk(fn) if isinstance(n, ast.Assign) and norm(n.targets[0]) == f"self.{attr}"]
+    # (… or the other way round: the fresh dict bound to a local first, installed with `self.<attr> = d`, filled through d)
+    installed = {n.value.id for n in inits if isinstance(n.value, ast.Name)}
+    stores = [n for n in ast.walk(fn) if isinstance(n, ast.Assign) and isinstance(n.targets[0], ast.Subscript)
+              and (norm(_exp_pw(n.targets[0].value, fn)) == f"self.{attr}"
+                   or (isinstance(n.targets[0].value, ast.Name) and n.targets[0].value.id in installed))]
     if not inits:
         return "bad", f"self.{attr} is no longer rebuilt from scratch (stale entries of patterns that left survive)"
     # form 2: dict comprehension handed to ExplainableObjectDict
